@@ -252,6 +252,13 @@ def r6(prog, rep, f, fg1):
             if not isinstance(cy, Rat):
                 rep.ob("R6", "%s: curl_bOverB_y extractable" % label, False, f.site(), str(cy), key="dual/%s/extract" % label)
                 continue
+            names_in_cy = {a.name for a in cy.atoms()} if hasattr(cy, "atoms") else set()
+            if not ({"CURL_R", "CURL_Z"} & names_in_cy):
+                # the rule reads grad(y) off as the coefficients of the (symbolic) cylindrical curl
+                # components in curl_bOverB_y; if the code does not route them through the three
+                # local component functions the coefficients cannot be identified
+                rep.ob("R6", "%s: curl_bOverB_y extractable" % label, False, f.site(), "not extractable: the cylindrical curl components are not identified in curl_bOverB_y (unmodelled spelling)", key="dual/%s/extract" % label)
+                continue
             Gy = (cy.diff("CURL_R"), cy.diff("CURL_Z"))
             m = ex.model
             BR, BZ = m.call("Bp_R", (R, Z)), m.call("Bp_Z", (R, Z))
